@@ -16,8 +16,13 @@ use lumina_node::store::{InMemoryStore, Store};
 use lumina_node::verif::p2p::shrex::pool_tracker as pt;
 use verif_harness::*;
 
+/// heights the ORIGINAL random phases stay below
 const CHAIN: u64 = 120;
+/// length of the generated header chains (S10: the many-heights phases go up to ~1050 pending heights)
+const CHAIN_GEN: u64 = 1100;
 const N_PEERS: usize = 6;
+/// number of distinct peer ids the harness can name (S10: up to 1025 announcers of one height)
+const N_IDS: usize = 1100;
 
 struct C40 {
     rt: tokio::runtime::Runtime,
@@ -25,6 +30,7 @@ struct C40 {
     chains: [Vec<ExtendedHeader>; 2],
     dup: usize,
     peers: Vec<PeerId>,
+    pidx: HashMap<PeerId, usize>,
     store: Arc<InMemoryStore>,
     tracker: pt::Tracker<InMemoryStore>,
     codes: HashMap<Hash, u64>,
@@ -41,10 +47,10 @@ fn chain_code(dup: usize, h: u64) -> u64 {
 impl C40 {
     fn new() -> Self {
         let rt = tokio::runtime::Builder::new_current_thread().enable_all().build().unwrap();
-        let plain = ExtendedHeaderGenerator::new().next_many(CHAIN);
+        let plain = ExtendedHeaderGenerator::new().next_many(CHAIN_GEN);
         let mut g = ExtendedHeaderGenerator::new();
         let mut dupc: Vec<ExtendedHeader> = vec![];
-        for h in 1..=CHAIN {
+        for h in 1..=CHAIN_GEN {
             let hd = if h % 2 == 1 && h > 1 { g.next_with_dah(dupc[(h - 2) as usize].dah.clone()) } else { g.next() };
             dupc.push(hd);
         }
@@ -53,11 +59,14 @@ impl C40 {
             let _g = rt.enter();
             pt::Tracker::new(store.clone())
         };
+        let peers: Vec<PeerId> = (0..N_IDS).map(|_| PeerId::random()).collect();
+        let pidx = peers.iter().enumerate().map(|(i, p)| (*p, i)).collect();
         let mut me = C40 {
             rt,
             chains: [plain, dupc],
             dup: 0,
-            peers: (0..32).map(|_| PeerId::random()).collect(),
+            peers,
+            pidx,
             store,
             tracker,
             codes: HashMap::new(),
@@ -70,7 +79,7 @@ impl C40 {
         for x in 1..=9 {
             self.codes.insert(fake_hash(x), x);
         }
-        for h in 1..=CHAIN {
+        for h in 1..=CHAIN_GEN {
             let dh = self.chains[self.dup][(h - 1) as usize].header.data_hash.unwrap();
             self.codes.entry(dh).or_insert(chain_code(self.dup, h));
         }
@@ -85,7 +94,7 @@ impl C40 {
         *self.codes.get(h).unwrap_or(&99999)
     }
     fn pidx(&self, p: &PeerId) -> usize {
-        self.peers.iter().position(|x| x == p).expect("known peer")
+        *self.pidx.get(p).expect("known peer")
     }
     fn peers_str(&self, ps: &[PeerId], sort: bool) -> String {
         let mut v: Vec<usize> = ps.iter().map(|p| self.pidx(p)).collect();
@@ -148,8 +157,15 @@ impl Prop for C40 {
          interleaved ops: ShrEx/Sub notifications of 6 peers for heights around the head (right hash, one of 3 fake \
          hashes, or the hash of another height; repeated announcements before and after validation), headers reaching \
          the store (next height, gaps, adjacent fill-ins), single poll() calls, get_pool queries over the whole window \
-         and beyond, peer removals, injected task timeouts and store errors (the height may be announced and stored again afterwards); 1 history in 8 uses a chain whose \
+         and beyond, peer removals, injected task timeouts and store errors (each followed at once by `drain` = poll until Pending, so the failed task is consumed before anything else; the height may be announced and stored again afterwards); 1 history in 8 uses a chain whose \
          neighbouring heights share a data hash (the property's precondition for get_pool is then false). \
+         Size-threshold histories (S10, tags thr/window, big/peers, big/heights): announcements and get_pool 8..12 heights \
+         below the head with all ten window heights tracked and head jumps of 1, 9, 10, 11, 12, 20; n peers announcing one \
+         height before validation, after validation and for a height that times out (quick n = 9, 17, 33, 65, 129; thorough \
+         7..9, 15..17, 31..33, 63..65, 127..129, 257, 513, 1025: voted set, candidate list, validated pool, AddPeers and \
+         BlockPeers of that size); k heights pending at once (k candidate pools, k header tasks parked on the store's \
+         Notify) with headers arriving bottom-up, top-down or from both ends (quick k = 9, 10, 11, 17, 32, 33, 65, 129, 513; \
+         thorough 8..12, 16, 17, 31..34, 63..66, 127..129, 257, 513, 1025). \
          Non-trivial = an op at position >= 5 of its history; distinct = distinct (op, full tracker state) lines."
     }
     fn gen_ops(&mut self, rng: &mut Rng, tier: Tier, out: &mut Emitter) {
@@ -253,16 +269,16 @@ impl Prop for C40 {
                 } else if w < 96 {
                     out.op(format!("remove p={}", rng.usize(0, N_PEERS - 1)), "remove", nt);
                 } else if !recent.is_empty() {
-                    // the header task of a recently announced height ends in a timeout / store error.  The height may
-                    // well be announced and stored afterwards (the injected result does not consume the tracker's own
-                    // `wait_height` task, which then completes too: the model keeps it in its queue as well)
+                    // the header task of a recently announced (not yet stored) height ends in a timeout / store error.
+                    // The height may well be announced and stored afterwards (the injected result does not consume the
+                    // tracker's own `wait_height` task, which then completes too: the model keeps it in its queue as well)
                     let h = *rng.pick(&recent);
                     if !stored.contains(&h) {
                         let name = if rng.bool() { "timeout" } else { "storeerr" };
                         out.op(format!("{name} h={h}"), name, nt);
-                        if rng.chance(1, 2) {
-                            out.op("poll", "poll", nt);
-                        }
+                        // the failure is consumed at once (`drain` = poll until Pending): in the real tracker the
+                        // failed task IS the height's only task, so the header can not be delivered "before" it
+                        out.op("drain", "drain", nt);
                     }
                 }
             }
@@ -272,6 +288,34 @@ impl Prop for C40 {
             }
             for h in recent.iter().rev().take(4) {
                 out.op(format!("get h={h}"), "get", true);
+            }
+        }
+        // ---- S10 size-threshold stress: appended scripted/random histories, each starting with its own `reset` ----
+        // (a) the 10-height window +-1: announcements / get_pool 8..12 heights below the head, 10 tracked pools, and
+        //     head jumps by 1, 9, 10, 11, 12, 20 heights (eviction range of 2 / 10 / 11 / 12 / 13 / 21 heights)
+        for &j in &[1u64, 9, 10, 11, 12, 20] {
+            window_history(rng, out, j);
+        }
+        // (b) many PEERS announcing one height (voted set / candidate list / validated pool / AddPeers / BlockPeers of that size)
+        let ps: &[usize] = if tier == Tier::Thorough {
+            &[7, 8, 9, 15, 16, 17, 31, 32, 33, 63, 64, 65, 127, 128, 129, 257, 513, 1025]
+        } else {
+            &[9, 17, 33, 65, 129]
+        };
+        for &n in ps {
+            many_peers_history(rng, out, n);
+        }
+        // (c) many HEIGHTS pending at once (that many candidate pools and header tasks parked on the store's Notify,
+        //     which wakes its waiters in batches of 32), headers then arriving bottom-up / top-down / from both ends
+        let ks: &[usize] = if tier == Tier::Thorough {
+            &[8, 9, 10, 11, 12, 16, 17, 31, 32, 33, 34, 63, 64, 65, 66, 127, 128, 129, 257, 513, 1025]
+        } else {
+            &[9, 10, 11, 17, 32, 33, 65, 129, 513]
+        };
+        for (i, &k) in ks.iter().enumerate() {
+            many_heights_history(rng, out, k, i % 3);
+            if tier == Tier::Thorough && k <= 129 {
+                many_heights_history(rng, out, k, (i + 1) % 3);
             }
         }
         out.op("reset from=0 to=0 dup=0", "reset/empty", false);
@@ -321,6 +365,23 @@ impl Prop for C40 {
                 };
                 format!("poll={r} {}", self.state())
             }
+            "drain" => {
+                let mut segs = vec![];
+                for _ in 0..64 {
+                    let r = self.poll_once();
+                    let pending = r == pt::VPoll::Pending;
+                    let rs = match r {
+                        pt::VPoll::Pending => "pending".to_string(),
+                        pt::VPoll::ReadyNone => "none".to_string(),
+                        pt::VPoll::Ready(ev) => self.ev_str(&ev),
+                    };
+                    segs.push(format!("poll={rs} {}", self.state()));
+                    if pending {
+                        break;
+                    }
+                }
+                segs.join(" ;; ")
+            }
             "store" => {
                 let h = arg_u64(line, "h").expect("h");
                 let hd = self.header(h);
@@ -353,6 +414,182 @@ impl Prop for C40 {
             "get" => arg(result, "get").map(|r| r.split(':').next().unwrap_or("").to_string()),
             _ => Some("-".into()),
         }
+    }
+}
+
+/// S10 (a): window thresholds.  Head = 30 after the reset.
+fn window_history(rng: &mut Rng, out: &mut Emitter, jump: u64) {
+    let b = 30u64;
+    let t = "thr/window";
+    out.op(format!("reset from=18 to={b} dup=0"), &format!("thr/window-jump={jump}"), false);
+    // announcements 12, 11, 10 heights below the head are ignored, 9 and fewer are tracked
+    for d in [12u64, 11, 10, 9, 8, 1, 0] {
+        out.op(format!("notify p={} x={} h={}", d % 6, 1000 + b - d, b - d), t, true);
+    }
+    for d in [11u64, 10, 9, 8] {
+        out.op(format!("get h={}", b - d), t, true);
+    }
+    for _ in 0..10 {
+        out.op("poll", t, true);
+    }
+    // all ten heights of the window are tracked (some validated, some still candidates)
+    for d in 0..=9u64 {
+        let x = if rng.chance(1, 5) { rng.range(1, 3) } else { 1000 + b - d };
+        out.op(format!("notify p={} x={x} h={}", 6 + d % 3, b - d), t, true);
+    }
+    for _ in 0..rng.usize(4, 14) {
+        out.op("poll", t, true);
+    }
+    for h in b - 11..=b + 1 {
+        out.op(format!("get h={h}"), t, true);
+    }
+    // the head jumps
+    let n = b + jump;
+    out.op(format!("notify p=0 x={} h={n}", 1000 + n), t, true);
+    out.op(format!("notify p=1 x=2 h={n}"), t, true);
+    out.op(format!("store h={n}"), t, true);
+    for _ in 0..16 {
+        out.op("poll", t, true);
+    }
+    for h in b - 11..=n + 1 {
+        out.op(format!("get h={h}"), t, true);
+    }
+    for d in [11u64, 10, 9] {
+        out.op(format!("notify p=2 x={} h={}", 1000 + n - d, n - d), t, true);
+        out.op(format!("get h={}", n - d), t, true);
+    }
+    for _ in 0..4 {
+        out.op("poll", t, true);
+    }
+}
+
+/// S10 (b): n peers announce height 21 (not stored yet: candidates), height 20 (stored: validated by the next
+/// polls) and height 22 (its task is made to time out: every voter is blocked in one event)
+fn many_peers_history(rng: &mut Rng, out: &mut Emitter, n: usize) {
+    let t = "big/peers";
+    out.op("reset from=15 to=20 dup=0", &format!("big/peers={n}"), false);
+    let mut order: Vec<usize> = (0..n).collect();
+    rng.shuffle(&mut order);
+    // every poll hands out ONE queued event and looks at the header tasks only when no event is queued:
+    // `ev` bounds the number of queued events, so that the polls below really reach the validation
+    let mut ev = 0usize;
+    for (i, &p) in order.iter().enumerate() {
+        let x = if rng.chance(1, 8) { rng.range(1, 3) } else { 1021 };
+        out.op(format!("notify p={p} x={x} h=21"), t, i >= 5);
+        if rng.chance(1, 2) {
+            let x = if rng.chance(1, 8) { rng.range(1, 3) } else { 1020 };
+            out.op(format!("notify p={p} x={x} h=20"), t, i >= 5);
+        }
+        if rng.chance(1, 24) {
+            // announces twice: blocked (and removed from every pool by the poll that hands the event out)
+            out.op(format!("notify p={p} x=1021 h=21"), t, true);
+            ev += 1;
+        }
+    }
+    // height 20 is in the store: validated by the first poll that reaches the tasks (AddPeers + BlockPeers of ~n/2 peers)
+    for _ in 0..ev + 5 {
+        out.op("poll", t, true);
+    }
+    out.op("get h=20", t, true);
+    out.op("get h=21", t, true);
+    out.op("store h=21", t, true);
+    for _ in 0..5 {
+        out.op("poll", t, true);
+    }
+    out.op("get h=21", t, true);
+    // late announcers of the validated height, one repeat, one wrong hash
+    for q in n..n + 6 {
+        out.op(format!("notify p={q} x=1021 h=21"), t, true);
+    }
+    out.op(format!("notify p={n} x=1021 h=21"), t, true);
+    out.op(format!("notify p={} x=3 h=21", n + 7), t, true);
+    for _ in 0..10 {
+        out.op("poll", t, true);
+    }
+    for _ in 0..3 {
+        out.op(format!("remove p={}", rng.usize(0, n - 1)), t, true);
+    }
+    out.op("get h=21", t, true);
+    out.op("get h=20", t, true);
+    // everybody announces height 22, whose header never arrives
+    rng.shuffle(&mut order);
+    for &p in &order {
+        out.op(format!("notify p={p} x=1022 h=22"), t, true);
+    }
+    out.op("poll", t, true);
+    out.op("timeout h=22", "big/peers-timeout", true);
+    for _ in 0..3 {
+        out.op("poll", t, true);
+    }
+    out.op("get h=22", t, true);
+    out.op("get h=21", t, true);
+}
+
+/// S10 (c): k heights above the head (20) are announced before any of their headers is stored: k candidate pools
+/// and k header tasks parked on the store's `Notify`.  order 0: headers arrive bottom-up (head moves by one, pools
+/// are evicted one by one); 1: top-down (the head jumps by k, every pool more than ten below is evicted at once,
+/// the remaining tasks deliver headers of evicted heights); 2: from both ends.
+fn many_heights_history(rng: &mut Rng, out: &mut Emitter, k: usize, order: usize) {
+    let b = 20u64;
+    let k64 = k as u64;
+    let t = "big/heights";
+    let oname = ["up", "down", "both"][order];
+    out.op(format!("reset from=15 to={b} dup=0"), &format!("big/heights={k}-{oname}"), false);
+    let mut hs: Vec<u64> = (b + 1..=b + k64).collect();
+    rng.shuffle(&mut hs);
+    for (i, &h) in hs.iter().enumerate() {
+        out.op(format!("notify p={} x={} h={h}", h % 6, 1000 + h), t, i >= 5);
+        if rng.chance(1, 4) {
+            out.op(format!("notify p={} x={} h={h}", 6 + h % 3, rng.range(1, 3)), t, i >= 5);
+        }
+        if rng.chance(1, 20) {
+            out.op("poll", t, true);
+        }
+    }
+    out.op("poll", t, true);
+    out.op(format!("get h={}", b + 1), t, true);
+    out.op(format!("get h={}", b + k64), t, true);
+    // arrival order of the headers (the store accepts a new head or a height adjacent to a stored range)
+    let arrivals: Vec<u64> = match order {
+        0 => (b + 1..=b + k64).collect(),
+        1 => (b + 1..=b + k64).rev().collect(),
+        _ => {
+            let (mut lo, mut hi) = (b + 1, b + k64);
+            let mut v = vec![hi];
+            hi -= 1;
+            while lo <= hi {
+                if rng.bool() {
+                    v.push(lo);
+                    lo += 1;
+                } else {
+                    v.push(hi);
+                    hi -= 1;
+                }
+            }
+            v
+        }
+    };
+    for (i, &h) in arrivals.iter().enumerate() {
+        out.op(format!("store h={h}"), "big/heights-store", true);
+        // sometimes several headers arrive between two polls
+        for _ in 0..*rng.pick(&[0usize, 1, 1, 2, 3]) {
+            out.op("poll", t, true);
+        }
+        if i % 7 == 3 {
+            out.op(format!("get h={h}"), t, true);
+            out.op(format!("get h={}", h.saturating_sub(10).max(1)), t, true);
+        }
+        if i % 11 == 5 {
+            // a late announcement for a height around the arrival
+            out.op(format!("notify p={} x={} h={h}", 9 + h % 2, 1000 + h), t, true);
+        }
+    }
+    // drain: per height at most one poll for the header and two for its AddPeers / BlockPeers
+    for _ in 0..3 * k + 8 {
+        out.op("poll", t, true);
+    }
+    for h in [b + 1, b + k64 - 10, b + k64 - 9, b + k64 - 1, b + k64] {
+        out.op(format!("get h={}", h.max(1)), t, true);
     }
 }
 
